@@ -76,6 +76,21 @@ def _structured(stmts, on_return):
     return out, False
 
 
+def _names(fn):
+    """every name bound or read in the function (parameters included), nested helper definitions excluded"""
+    out = {a.arg for a in fn.args.args + fn.args.kwonlyargs}
+    todo = list(fn.body)
+    while todo:
+        n = todo.pop()
+        if isinstance(n, FUNC + (ast.ClassDef,)):
+            out.add(n.name)
+            continue
+        if isinstance(n, ast.Name):
+            out.add(n.id)
+        todo.extend(ast.iter_child_nodes(n))
+    return out
+
+
 def _always_returns(stmts):
     for st in stmts:
         if isinstance(st, (ast.Return, ast.Raise)):
@@ -99,7 +114,7 @@ class _Rename(ast.NodeTransformer):
         return n
 
 
-def _expand(call, target_kind, target, helper, is_method):
+def _expand(call, target_kind, target, helper, is_method, taken=frozenset()):
     """-> list of statements replacing the call statement, or None"""
     ps = [a.arg for a in helper.args.args]
     if is_method and ps and ps[0] in ("self", "cls"):
@@ -161,7 +176,8 @@ def _expand(call, target_kind, target, helper, is_method):
             mapping[p] = a if isinstance(a, ast.Constant) else a.id
     for v in stored:
         if v not in mapping:
-            mapping[v] = v + tag
+            # a helper local keeps its name unless the caller already uses that name (then it is renamed apart)
+            mapping[v] = v + tag if v in taken else v
     body = [_clone(s) for s in helper.body if not (isinstance(s, ast.Expr) and isinstance(s.value, ast.Constant))]
     body = [_Rename(mapping).visit(s) for s in body]
 
@@ -169,6 +185,13 @@ def _expand(call, target_kind, target, helper, is_method):
         val = r.value if r.value is not None else ast.Constant(value=None)
         if target_kind == "assign" and ret_local is not None:
             st = ast.Pass()
+        elif target_kind == "assign" and len(target) == 1 and isinstance(target[0], ast.Tuple) and isinstance(val, ast.Tuple) and len(val.elts) == len(target[0].elts) \
+                and all(isinstance(t, ast.Name) for t in target[0].elts) \
+                and not ({t.id for t in target[0].elts} & {x.id for x in ast.walk(val) if isinstance(x, ast.Name)} - {t.id for t, v in zip(target[0].elts, val.elts) if isinstance(v, ast.Name) and v.id == t.id}):
+            # `a, b = x, y` with no target read on the right: element-wise, so each name has a plain definition
+            sts = [ast.copy_location(ast.Assign(targets=[_clone(t)], value=v), r) for t, v in zip(target[0].elts, val.elts)
+                   if not (isinstance(v, ast.Name) and v.id == t.id)]
+            return sts or [ast.copy_location(ast.Pass(), r)]
         elif target_kind == "assign":
             st = ast.Assign(targets=[_clone(t) for t in target], value=val)
         elif target_kind == "return":
@@ -234,7 +257,7 @@ def inlined(module, func, depth=2, tests=False, exclude=()):
                 if call is not None:
                     h, is_m = resolve(call)
                     if h is not None:
-                        rep = _expand(call, kind, tgt, h, is_m)
+                        rep = _expand(call, kind, tgt, h, is_m, taken=_names(new) - ({t.id for t in tgt if isinstance(t, ast.Name)} if tgt else set()))
                         if rep is not None:
                             used.append(h.name)
                             changed[0] = True
@@ -251,7 +274,7 @@ def inlined(module, func, depth=2, tests=False, exclude=()):
                         if h is not None:
                             _COUNTER[0] += 1
                             tmp = f"__t{_COUNTER[0]}"
-                            pre = _expand(tc, "assign", [ast.Name(id=tmp, ctx=ast.Store())], h, is_m)
+                            pre = _expand(tc, "assign", [ast.Name(id=tmp, ctx=ast.Store())], h, is_m, taken=_names(new))
                             if pre is not None:
                                 used.append(h.name)
                                 changed[0] = True
